@@ -116,9 +116,9 @@ class StubModelRows(Cacheable):
         self.objects = objects
 
 
-def h06c_rows(has0, has1, has2, has3, hdr0, hdr1, hdr2, hdr3, split):
-    """every stored row is reported at the index its own record declares, whether or not empty rows have header records
-    and however the rows are spread over tiles"""
+def h06c_rows(has0, has1, has2, has3, hdr0, hdr1, hdr2, hdr3, split, wide, tile_flag):
+    """every stored row is reported at the index its own record declares, whether or not empty rows have header records,
+    however the rows are spread over tiles, and whichever offset encoding each row record declares"""
     R = 4
     has = [has0, has1, has2, has3]
     hdr = [hdr0, hdr1, hdr2, hdr3]
@@ -127,28 +127,32 @@ def h06c_rows(has0, has1, has2, has3, hdr0, hdr1, hdr2, hdr3, split):
     headers = []
     for r in range(R):
         if has[r]:
-            blob = bytes([48 + r]) * 12
-            ri = Rec(tile_row_index=r % tile_size, cell_storage_buffer=blob, cell_offsets=pack("<2h", 0, -1), has_wide_offsets=True)
+            blob = bytes([48 + r]) * 12 + bytes([97 + r]) * 8
+            offs = pack("<2h", 0, 3) if wide else pack("<2h", 0, 12)
+            ri = Rec(tile_row_index=r % tile_size, cell_storage_buffer=blob, cell_offsets=offs, has_wide_offsets=wide)
             tiles.setdefault(r // tile_size, []).append(ri)
-            headers.append(Rec(index=r, numberOfCells=1))
+            headers.append(Rec(index=r, numberOfCells=2))
         elif hdr[r]:
             headers.append(Rec(index=r, numberOfCells=0))       # explicit header record for an empty row
     objects = {7: None, 30: Rec(headers=headers)}
     tile_refs = []
     for tid in sorted(tiles):
-        objects[40 + tid] = Rec(rowInfos=tiles[tid], last_saved_in_BNC=True)
+        # the tile-level hint is independent of what each row record declares
+        objects[40 + tid] = Rec(rowInfos=tiles[tid], last_saved_in_BNC=True, should_use_wide_rows=tile_flag)
         tile_refs.append(Rec(tileid=tid, tile=Rec(identifier=40 + tid)))
-    objects[7] = Rec(number_of_rows=R, number_of_columns=2,
+    objects[7] = Rec(number_of_rows=R, number_of_columns=3,
                      base_data_store=Rec(rowHeaders=Rec(buckets=[Rec(identifier=30)]),
-                                         tiles=Rec(tiles=tile_refs, tile_size=tile_size)))
+                                         tiles=Rec(tiles=tile_refs, tile_size=tile_size, should_use_wide_rows=tile_flag)))
     m = StubModelRows(objects)
     for r in range(R):
         buf = m.storage_buffer(7, r, 0)
         if has[r]:
             assert buf == bytes([48 + r]) * 12
+            assert m.storage_buffer(7, r, 1) == bytes([97 + r]) * 8
         else:
             assert buf is None
-        assert m.storage_buffer(7, r, 1) is None
+            assert m.storage_buffer(7, r, 1) is None
+        assert m.storage_buffer(7, r, 2) is None
 
 
 HARNESSES = [
@@ -166,8 +170,8 @@ HARNESSES = [
             bounds="4 columns, any subset present, record lengths 4/8/12 bytes", stubs=["array('h') model: 16-bit signed little-endian split"]),
     Harness("H06c", h06c_rows,
             dict(has0=BoolDom(), has1=BoolDom(), has2=BoolDom(), has3=BoolDom(), hdr0=BoolDom(), hdr1=BoolDom(), hdr2=BoolDom(),
-                 hdr3=BoolDom(), split=BoolDom()),
-            bounds="4 rows, any subset stored, header records for any subset of the empty rows, one tile or tiles of 2 rows",
+                 hdr3=BoolDom(), split=BoolDom(), wide=BoolDom(), tile_flag=BoolDom()),
+            bounds="4 rows x 2 stored cells, any subset stored, header records for any subset of the empty rows, one tile or tiles of 2 rows, narrow or wide offsets per row record, tile-level wide hint set or not",
             stubs=["object store = dict of attribute bags"]),
 ]
 PROPERTY = "C06"
